@@ -27,16 +27,21 @@ unit_include_c = compiler_c.unit_include
 from contracts.symbols_c import unit_define, unit_resolve, unit_resolve_register  # noqa
 from contracts.meta_c import unit_zero_size, unit_include, unit_insert_file, unit_repeat  # noqa
 from contracts.cli_c import unit_main_cli  # noqa
+from contracts import literal_c
+from contracts.literal_c import unit_string_escape, unit_quoted_literal, unit_literal_closed  # noqa
 from pyvc import driver
 from contracts import tokens_c
 from contracts.tokens_c import unit_quoted_string, unit_instruction_pointer, unit_angle_char, unit_get_as_str, unit_string_concat  # noqa
 
 ID = "C08"
 EXPLANATION = ("function-level exception freedom and termination, for all values of the inputs; totality over 'all source texts' is NOT decided "
-               "(the parser is outside the subset) - the random-program run-time check is testing")
+               "(the parser is outside the subset, except the character-literal scanner: contracts/literal_c.py) - the random-program run-time check is testing")
 TRUSTED = ["pyvc engine semantics incl. its models of the builtins' exceptions (A1)", "z3 (A7)"]
 ASSUMPTIONS = ["A2: operand / statement skeletons as the parser produces them; the parser itself (regexes, backtracking, recursion) is unverified",
-               "A8: recursion depth, memory and time are not modelled", "callee contracts as in the owning properties"]
+               "A8: recursion depth, memory and time are not modelled", "callee contracts as in the owning properties",
+               "character-literal scanner (contracts/literal_c.py): the function bodies of string_escape / single_quoted_literal / double_quoted_literal are verified with the @Parser "
+               "wrapper dropped and the primitive parsers (literal, one-character and two-hex-digit regexes, skip_whitespace) replaced by their assumed contracts - `re` semantics of "
+               "the two patterns are trusted, the patterns themselves are checked to be the ones in the source; str.lower() facts by enumeration over all code points"]
 
 
 def unit_align_total(eng):
@@ -400,7 +405,7 @@ def units(tier):
     us = [("mutation[%d]" % k, "unit_mutation", dict(shard=k, tier=tier)) for k in range(MUT_SHARDS)]
     for which, flag in (("get_as_int", None), ("get_as_int", False), ("get_as_str", None)):
         us.append(("%s[cyclic,%s]" % (which, flag), "unit_get_cyclic", dict(which=which, flag=flag)))
-    us += [("random-programs", "unit_random_programs", dict(tier=tier)), ("self-reference", "unit_self_reference", {}), ("open_device", "unit_open_device", {}), ("bounded-handlers", "unit_bounded_handlers", dict(tier=tier)), ("bounded-literals", "unit_bounded_literals", dict(tier=tier)), ("align", "unit_align_total", {}), ("bin", "unit_bin", {}),
+    us += [("random-programs", "unit_random_programs", dict(tier=tier)), ("self-reference", "unit_self_reference", {}), ("open_device", "unit_open_device", {}), ("bounded-handlers", "unit_bounded_handlers", dict(tier=tier)), ("bounded-literals", "unit_bounded_literals", dict(tier=tier)), *literal_c.all_units(), ("align", "unit_align_total", {}), ("bin", "unit_bin", {}),
           ("awaiting", "unit_awaiting", {}), ("wait", "unit_wait", {}), ("wait-chain", "unit_wait_chain", {}), ("promise", "unit_promise", {}), ("number", "unit_number", {}), ("encode", "unit_encode", {}),
           ("charliteral", "unit_charliteral", {}), ("include", "unit_include", {}), ("insert_file", "unit_insert_file", {}), ("repeat", "unit_repeat", {}),
           ("resolve-register", "unit_resolve_register", {}), ("try_as_register", "unit_try_as_register", {}), ("try_accumulator", "unit_try_accumulator", {})]
@@ -508,6 +513,9 @@ def replay(o, tree):
             if out not in ("ok", "fail"):
                 bad.append((sig, s_, out))
         return dict(jobs=[{"kind": "asm", "sources": [b[1] + "\n"]} for b in bad[:4]], expected="ok or fail (a result or a reported error)", observed=bad, reproduced=bool(bad))
+    if k == "literal":
+        cfg = dict(cfg, kind="bounded-literals")
+        k = "bounded-literals"
     if k == "bounded-literals":
         _, progs = _literal_programs(cfg.get("tier", "quick"))
         out, err = _run_literal_programs(tree, progs)
